@@ -4,6 +4,7 @@ import re
 from ..exprs import ExprBuilder, walk, show, short_callee, strip
 from ..mir import callee_of, callee_name, op_const
 from ..facts import AnalysisError
+from ..cfgq import Scope
 
 ID = "C01"
 LEVEL = "proof"
@@ -134,12 +135,36 @@ def find_bytes(body, term, eb):
     return None
 
 
+def check_optional_inputs(ctx, prog, rule="c01.optional"):
+    """"For every HULC project directory the library can convert ... exits with status 0": the auxiliary files (KyGananciasSolares.txt, NewBDL_O.tbl) are
+    optional - five of the shipped projects have no KyG file.  In collect_hulc_data the result of find_kyg / find_tbl (an Option of a path) may be passed on
+    or defaulted, never turned into an error or unwrapped: that would make `--use-extra` fail on every project without the file."""
+    f = prog.find("hulc2model::collect_hulc_data")
+    sc = Scope(prog, f)
+    n = 0
+    for b, t in f.body.calls():
+        nm = short_callee(callee_name(t) or "")
+        if nm not in ("ok_or", "ok_or_else", "expect", "unwrap", "context", "with_context") or not t["args"]:
+            continue
+        src = show(strip(sc.operand(t["args"][0])))
+        for what in ("find_kyg", "find_tbl"):
+            if what in src and "@Continue" in src or (what in src and "branch(" in src):
+                n += 1
+                ctx.violation(rule, "%s|%s" % (rule, what), "the optional path found by %s is turned into an error / unwrapped (%s): a project without that file no longer "
+                              "converts with --use-extra (five shipped projects have no KyGananciasSolares.txt)" % (what, nm), f.loc(t.get("ln")))
+    calls = [short_callee(callee_name(t) or "") for _, t in f.body.calls()]
+    ctx.require("find_kyg" in calls and "find_tbl" in calls, "collect_hulc_data no longer looks for the auxiliary files with find_kyg / find_tbl: not a shape this rule reads")
+    if n == 0:
+        ctx.ok(rule, rule + "|auxiliary-files", "the KyG and tbl paths stay optional (no ok_or / unwrap on what find_kyg / find_tbl return)", f.loc())
+
+
 def run(ctx):
     prog = ctx.prog
     main = [f for f in prog.fns.values() if f.path == "hulc2model::main" and f.target_kind == "bin"]
     ctx.require(len(main) == 1, "anchor hulc2model::main (bin) not found")
     main = main[0]
     cli_main = prog.fn_by_path("hulc2model::cli::cli_main")
+    check_optional_inputs(ctx, prog)
     seen, sinks = find_sinks(ctx, main.id)
     ctx.floor("c01.reach", "workspace bodies reachable from hulc2model::main", len(seen), 600)
     for need in ("hulc2model::collect_hulc_data", "hulc::ctehexml::parse_with_catalog", "hulc::bdl::Data::new"):
